@@ -61,5 +61,13 @@ TEXT = {
                 "conditioned (regime decided on the reference; skipped cases are counted)",
         "technique": "runtime monitoring: differential oracle (reference slogdet) over generated trees x algorithm pairs with sub-expression blame",
     },
+    "C08": {
+        "level": "Held on the executions observed: generated square operator trees x offsets k x {Exact, Auto, omitted}, diag and "
+                 "trace compared exactly (integer payloads) with the reference diagonal; the rule that served the top call is "
+                 "observed (dispatch tap) so that refusals are accepted from structural rules only; structural answers are "
+                 "compared with the generic probing of the same operator; sizes straddle the probing block (100).",
+        "note": _NOTE,
+        "technique": "runtime monitoring: differential oracle (reference diagonal + generic-vs-structural) with dispatch-tap attribution of refusals",
+    },
 }
 NOT_APPLICABLE = {}
